@@ -42,6 +42,7 @@ fn stream_spec(cfg: &Cfg, n_quick: usize, n_thorough: usize, enum_quick: usize, 
         enum_flags: vec![fl(""), fl("i"), fl("u"), fl("mv")],
         tweak,
         fixed: fixed_corpus(),
+        templates: true,
     }
 }
 
